@@ -21,6 +21,10 @@ FLOORS = {"quick": (100000, 300), "thorough": (2000000, 2000)}
 
 
 def run(tier, seed, replay):
+    if replay is not None:
+        # a replay re-executes one case: the coverage floors do not apply
+        global FLOORS
+        FLOORS = {"quick": (1, 1), "thorough": (1, 1)}
     rep = vcommon.Report("C01", level="exploration",
                          rule="case = (type, value, pointer width, list policy, path); distinct = structural shape keys of the types exercised")
     _abiinterp.run_bin(rep, "c01", tier, seed, replay, timeout=900 if tier == "quick" else 3600, miri_shard=(tier == "thorough"))
